@@ -127,18 +127,24 @@ impl Address {
     }
 
     fn check_domain_ascii(domain: &str) -> Result<(), AddressError> {
+        // Address literal: must be an IP address
+        if let Some(ip) = domain.strip_prefix('[') {
+            let ip = ip.strip_suffix(']').ok_or(AddressError::InvalidDomain)?;
+            let ip = ip.strip_prefix("IPv6:").unwrap_or(ip);
+            return if ip.parse::<IpAddr>().is_ok() {
+                Ok(())
+            } else {
+                Err(AddressError::InvalidDomain)
+            };
+        }
+
         // Domain
         if EmailAddress::is_valid_domain(domain) {
             return Ok(());
         }
 
         // IP
-        let ip = domain
-            .strip_prefix('[')
-            .and_then(|ip| ip.strip_suffix(']'))
-            .unwrap_or(domain);
-
-        if ip.parse::<IpAddr>().is_ok() {
+        if domain.parse::<IpAddr>().is_ok() {
             return Ok(());
         }
 
